@@ -123,6 +123,7 @@ def verify_unit(unit, canary=True, extra=()):
     r = UnitResult()
     r.unit = unit
     r.errors = []
+    r.canary = None
     r.undecided_reason = None
     upath = os.path.join(B.VX, "units", unit + ".vu")
     try:
